@@ -315,6 +315,8 @@ impl Monitor for C19 {
             ("(a)(b)(c)(d)(e)(f)(g)(h)(i)\\10", "", "abcdefghia0"),
             ("([a-b])+\\1+", "", "ab"),
             ("(?:(?:.|(a))? \\1)1", "", "a a1"),
+            ("(?:(?:.|(a))?? \\1)1", "", "a a1"),
+            ("(?:(.)\u{3bb}\u{e0})+\\1", "s", "z\u{3bb}\u{e0}\u{c0}\u{3bb}\u{c0}"),
         ])
     }
 }
